@@ -127,6 +127,60 @@ def relabelled_systems(quick):
     return out
 
 
+TINY_CELLS = [
+    ("tiny-ortho-a", (0.50, 0.50, 0.52), (90, 90, 90)),
+    ("tiny-ortho-b", (0.45, 0.45, 0.60), (90, 90, 90)),
+    ("tiny-ortho-c", (0.40, 0.55, 0.70), (90, 90, 90)),
+    ("tiny-mono", (0.45, 0.60, 0.50), (90, 110, 90)),
+    ("tiny-hex", (0.50, 0.50, 0.60), (90, 90, 60)),
+    ("tiny-tric", (0.50, 0.55, 0.60), (80, 100, 70)),
+]
+
+
+def tiny_cells(quick):
+    """Cells with edges 0.4-0.7 nm (crystal-like), orthorhombic and triclinic; thorough: also unreduced forms."""
+    out = []
+    for name, L, A in TINY_CELLS:
+        v = grids.lengths_angles_to_vectors(*L, *A)
+        ortho = all(abs(x - 90) < 1e-9 for x in A)
+        out.append(dict(name=name, vectors=v, lengths=np.array(L, float), angles=np.array(A, float), reduced=True,
+                        ortho=ortho, tiny=True))
+        if not quick and not ortho:
+            u = v.copy()
+            u[1] = v[1] + v[0]
+            u[2] = v[2] + v[0] - v[1]
+            Lu, Au = grids.vectors_to_lengths_angles(u)
+            out.append(dict(name=name + "+unreduced", vectors=u, lengths=Lu, angles=Au, reduced=False, ortho=False, tiny=True))
+    return out
+
+
+def walk_order(n, bonds, root="low"):
+    """A valid placement order for make_whole: rows (placed atom, atom to place) of a breadth-first walk over every
+    molecule, started from its lowest ("low") or highest ("high") atom index; ring-closing bonds are left out."""
+    adj = [[] for _ in range(n)]
+    for a, b in bonds:
+        adj[a].append(b)
+        adj[b].append(a)
+    placed = [False] * n
+    rows = []
+    order = range(n) if root == "low" else range(n - 1, -1, -1)
+    for r in order:
+        if placed[r] or not adj[r]:
+            continue
+        placed[r] = True
+        queue = [r]
+        while queue:
+            nxt = []
+            for a in queue:
+                for b in (sorted(adj[a]) if root == "low" else sorted(adj[a], reverse=True)):
+                    if not placed[b]:
+                        placed[b] = True
+                        rows.append((a, b))
+                        nxt.append(b)
+            queue = nxt
+    return np.asarray(rows, dtype=np.int32).reshape(-1, 2)
+
+
 def components(n, bonds):
     """Connected components of the bond graph (union-find), as a set of frozensets of atom indices."""
     parent = list(range(n))
